@@ -297,8 +297,9 @@ def ArgsOs.next (m : Mem) (e : Env) (fuel : Nat) (it : ArgsOs) : R (Option Bytes
       else (cstr m arg fuel).bind fun s => .ok (some s, it')
   else .ok (none, it)
 
-/-- `ExactSizeIterator::len` -/
-def ArgsOs.len (it : ArgsOs) : Nat := it.numArgs
+/-- `ExactSizeIterator::len`: `self.num_args - self.ind`, the arguments `next` has not yielded yet (since the
+    `fix:` commit d3e06ee; before it the body was `self.num_args`, kept as `Env.Legacy.itStep`) -/
+def ArgsOs.len (it : ArgsOs) : Nat := it.numArgs - it.ind
 
 /-- `for a in args_os()`: call `next` until it answers `None` (first argument bounds the number of calls) -/
 def collectOs (m : Mem) (e : Env) (fuel : Nat) : Nat → ArgsOs → R (List Bytes)
